@@ -302,7 +302,7 @@ def P_emit(ctx, lib):
                     flagged.append((v[1][0][1], e))
             last_unflagged = [e for f, e in flagged if f is False]
             ctx.ob(rule, "send-excludes-model", len(last_unflagged) >= 1, where=b.where(sends[0]["loc"]), expected="stack.push((false, m.into())) on the sending path", found=[f for f, e in flagged])
-            bt = named_backtrack(b, p)
+            bt = named_backtrack(b, p, paths)
             ctx.ob(rule, "send-then-backtrack", bt == symx.vbool(True), where=b.where(sends[0]["loc"]), expected="backtrack = true after sending", found=symx.show(bt) if bt else None)
         elif guard_ok and p.end in ("backedge", "return"):
             ctx.ob(rule, "stable-two-valued-always-sent", False, where=b.where(), expected="every path with is_two_valued && stable sends the model", found=p.describe()[:300])
@@ -310,9 +310,34 @@ def P_emit(ctx, lib):
     return b, paths
 
 
-def named_backtrack(b, p):
-    """value of the local that is tested as `backtrack` (the bool local set to true next to the send)"""
-    l = named_local(b, "backtrack")
+_BT = {}
+
+
+def backtrack_local(b, paths):
+    """the local that plays the role of the backtrack request: the loop-carried bool whose true value is the last condition tested
+    before the emptiness test of the stack at the head of the unwinding block (found by role, not by name)"""
+    key = id(paths)
+    if key in _BT:
+        return _BT[key]
+    found = set()
+    for p in paths:
+        prev = None
+        for e, v in p.cond:
+            es = deep_strip(e)
+            if emptiness(e, v) is not None and prev is not None:
+                pe, pv = prev
+                if pe[0] == "loopvar" and int_of(pv) == 1:
+                    found.add(pe[2])
+            prev = (es, v)
+    _BT[key] = found.pop() if len(found) == 1 else None
+    return _BT[key]
+
+
+def named_backtrack(b, p, paths=None):
+    """value, at the end of path p, of the local that is tested as the backtrack request"""
+    l = backtrack_local(b, paths) if paths is not None else None
+    if l is None:
+        l = named_local(b, "backtrack")
     if l is None:
         return None
     return p.locals.get(l)
@@ -378,10 +403,22 @@ def P_lockstep(ctx, lib, b, paths):
     # termination exit: return only when backtracking with an empty stack (tested with is_empty, or found empty by the unwinding pop)
     for p in paths:
         if p.end == "return":
-            emp = [(deep_strip(unloop(e)), v) for e, v in p.cond if is_call(deep_strip(unloop(e)), "Vec::is_empty")]
-            ok = len(emp) == 1 and int_of(emp[0][1]) == 1 or bool(pop_none(p))
+            emp = [emptiness(e, v) for e, v in p.cond if emptiness(e, v) is not None]
+            ok = len(emp) == 1 and emp[0] is True or bool(pop_none(p))
             ctx.ob(rule, "return-iff-stack-empty-on-backtrack", ok, where=b.where(), expected="leave the search loop only when backtracking with an empty stack", found=p.describe()[:240])
     P_exhaust(ctx, lib, b, paths)
+
+
+def emptiness(e, v):
+    """condition (e, v) as an emptiness test of a Vec: True = 'is empty', False = 'is not empty', None = not such a test.
+    Spellings: x.is_empty(), x.len() == 0, x.len() != 0, x.len() > 0 (canonical forms of the engine)"""
+    e = deep_strip(unloop(e))
+    if is_call(e, "Vec::is_empty"):
+        return int_of(v) == 1
+    if e[0] == "app" and e[1] in ("Eq", "Ne", "Gt", "Le") and len(e[2]) == 2 and is_call(deep_strip(e[2][0]), "Vec::len") and deep_strip(e[2][1]) == symx.vint(0):
+        t = int_of(v) == 1
+        return t if e[1] in ("Eq", "Le") else (not t)
+    return None
 
 
 def pop_none(p):
